@@ -149,7 +149,7 @@ def run_modes(pa, c, d, D, de_int, scale, tol, band, *, backends, modes, search,
             got = ar.last_solver()
             if cands and cand_obs is None:
                 dis, tup = d.valid_alignments(c)
-                cand_obs = (dis, tup) if len(dis) <= 3000 else None
+                cand_obs = (dis, tup) if len(dis) <= 3000 else None      # big lists: see cands.growth_records
             mo = -1
             if modelopt is not None:
                 mo = modelopt["pruned" if mode == "partition" else "softp"]
